@@ -1,4 +1,6 @@
 import GlyModel.Generated.Tables
+import GlyModel.Smiles.Tokenize
+import GlyProofs.Smiles.Relabel
 /-
   C02 — Every non-empty result is a valid, whole, placeholder-free molecule. (Property theorems only.)
 -/
@@ -27,6 +29,28 @@ theorem C02_marker_tables_disjoint :
     let o := (Gen.placeholderO.map (·.2)).filter (· ≠ [])
     let c := (Gen.placeholderC.map (·.2)).filter (· ≠ [])
     (o ++ c).Nodup ∧ (Gen.dummyAtoms.flatMap (fun (a, b) => [a.2, b.2])).Nodup := by
+  decide +kernel
+
+open Gly.Smi Gly.Asm in
+/-- Ring labels are names: the per-level renumbering of `Monomer.to_smiles` (adding `ring_index` to every label – an injective
+    renaming) never changes the molecule, as long as the renamed labels can still be *written*. -/
+theorem C02_shift_preserves_molecule (k : Nat) (ts : List Tok) (x : St) (h : run St.init ts = some x) :
+    ∃ x', run St.init (ts.map (relabelTok (· + k))) = some x' ∧ x'.atoms = x.atoms ∧
+      x'.evs.map Ev.unlabel = x.evs.map Ev.unlabel ∧ x'.closed = x.closed :=
+  relabel_same_molecule (· + k) (by intro a b h; simpa using h) ts x h
+
+open Gly.Smi Gly.Asm in
+/-- … and they can be written exactly when they are below 100: `shift` prints one digit or `%` and two digits, which the
+    SMILES reader takes back as the same label for every label < 100 … -/
+theorem C02_labels_valid_below_100 :
+    (List.range 100).all (fun n => tokenize (shiftLabel ['0'] n) == some [Tok.ring n]) = true := by
+  decide +kernel
+
+open Gly.Smi Gly.Asm in
+/-- … while 100 is printed as `%100`, which reads back as label 10 followed by label 0 (observed: a chain of depth 99;
+    now withheld by the release gate). -/
+theorem C02_label_100_counterexample :
+    tokenize (shiftLabel ['0'] 100) = some [Tok.ring 10, Tok.ring 0] := by
   decide +kernel
 
 end Gly.Props.C02
